@@ -1,4 +1,685 @@
-//! C14 monitor (not written yet).
-use crate::ctx::Ctx;
+//! C14 — the type checker accepts exactly the well-formed programs.
+//!
+//! Programs come from `crate::prog`: well-formed by construction (verdict "accept"), well-formed
+//! look-alikes of fault shapes ("accept"), and single-fault mutants ("reject", each re-judged by
+//! the independent `prog::well_formed`). candid's verdict = `str::parse::<IDLProg>()` followed by
+//! `check_prog` (a parse error is a rejection). Every accepted environment is then walked:
+//! closedness, `trace_type`, reflexive `subtype`, encoding of generated values, the four binding
+//! generators — none may panic. Everything that touches candid runs on a thread with a bounded
+//! stack; only plain data comes back.
+use crate::conv::{to_idl, FromCandid};
+use crate::ctx::{catch, on_thread, Ctx};
+use crate::gen::values::ValGen;
+use crate::model::subtype::requal;
+use crate::model::{REnv, RType};
+use crate::prog::*;
+use crate::rng::Rng;
+use candid::types::subtype::{subtype, Gamma};
+use candid::types::value::IDLArgs;
+use candid::types::{Type, TypeEnv, TypeInner};
+use candid_parser::syntax::{IDLInitArgs, IDLMergedProg};
+use serde_json::json;
 
-pub fn run(_ctx: &mut Ctx) {}
+const STACK: usize = 64 << 20;
+
+fn clip(s: &str) -> String {
+    if s.len() > 6000 {
+        let mut end = 6000;
+        while !s.is_char_boundary(end) {
+            end -= 1;
+        }
+        format!("{}…(+{} bytes)", &s[..end], s.len() - end)
+    } else {
+        s.to_string()
+    }
+}
+
+/// What came back from the thread that ran candid.
+#[derive(Default)]
+struct Report {
+    /// None = accepted; Some((stage, class, first line of the message))
+    rejected: Option<(String, String, String)>,
+    /// findings of the walk over an accepted environment: (signature, explanation)
+    findings: Vec<(String, String)>,
+    counters: Vec<String>,
+    /// the checker's reading differs from the spec's reading of the source
+    model_diff: Option<String>,
+}
+
+fn all_vars(t: &Type, out: &mut Vec<String>) {
+    match t.as_ref() {
+        TypeInner::Var(v) => out.push(v.clone()),
+        TypeInner::Opt(x) | TypeInner::Vec(x) => all_vars(x, out),
+        TypeInner::Record(fs) | TypeInner::Variant(fs) => fs.iter().for_each(|f| all_vars(&f.ty, out)),
+        TypeInner::Func(f) => f.args.iter().chain(f.rets.iter()).for_each(|x| all_vars(x, out)),
+        TypeInner::Service(ms) => ms.iter().for_each(|m| all_vars(&m.1, out)),
+        TypeInner::Class(args, t) => {
+            args.iter().for_each(|x| all_vars(x, out));
+            all_vars(t, out)
+        }
+        _ => {}
+    }
+}
+
+fn motoko_ok(p: &Prog) -> bool {
+    // the Motoko generator documents a panic for method names that are not identifiers
+    let mut ok = true;
+    let mut q = p.clone();
+    crate::prog::mutants::walk(&mut q, &mut |node, _| {
+        if let crate::prog::mutants::Node::Methods(ms) = node {
+            if ms.iter().any(|m| !is_ident(&m.name)) {
+                ok = false;
+            }
+        }
+    });
+    ok
+}
+
+/// Walk an accepted environment. `pm` is the model of the source program.
+#[allow(clippy::too_many_arguments)]
+fn walk_accepted(
+    r: &mut Report,
+    seed: u64,
+    p: &Prog,
+    pm: &ProgModel,
+    env: &TypeEnv,
+    actor: &Option<Type>,
+    ast: candid_parser::IDLProg,
+    bindings: bool,
+) {
+    // closed: every name that occurs resolves
+    let mut vars = Vec::new();
+    for t in env.0.values() {
+        all_vars(t, &mut vars);
+    }
+    if let Some(a) = actor {
+        all_vars(a, &mut vars);
+    }
+    for v in &vars {
+        if env.find_type(v).is_err() {
+            r.findings.push((
+                "accepted-env|unbound-name".into(),
+                format!("accepted environment refers to `{v}` which it does not define"),
+            ));
+            return;
+        }
+    }
+    r.counters.push("walk:closed".into());
+    // name tracing terminates in a non-name
+    for name in env.0.keys() {
+        let v: Type = TypeInner::Var(name.clone()).into();
+        match catch(|| env.trace_type(&v)) {
+            Err(pn) => r.findings.push((format!("trace_type|panic|{}", stable_location(&pn.location)), pn.message.clone())),
+            Ok(Err(e)) => r.findings.push((
+                format!("trace_type|error|{}", crate::mon::common::err_class(&e)),
+                format!("trace_type({name}) failed on an accepted environment: {e}"),
+            )),
+            Ok(Ok(t)) => {
+                if matches!(t.as_ref(), TypeInner::Var(_)) {
+                    r.findings.push(("trace_type|returns-a-name".into(), format!("trace_type({name}) = {t}")));
+                }
+            }
+        }
+    }
+    r.counters.push("walk:trace_type".into());
+    // reflexive subtyping: literally (t, t), and against a renamed copy of the environment
+    let mut twice = env.clone();
+    let renamed: Vec<(Type, Type)> = env
+        .0
+        .keys()
+        .map(|name| {
+            let v: Type = TypeInner::Var(name.clone()).into();
+            (v.clone(), twice.merge_type(env.clone(), v))
+        })
+        .collect();
+    for (v, v2) in &renamed {
+        match catch(|| subtype(&mut Gamma::new(), env, v, v)) {
+            Err(pn) => r.findings.push((format!("subtype|panic|{}", stable_location(&pn.location)), pn.message.clone())),
+            Ok(Err(e)) => r.findings.push((
+                format!("subtype|reflexive-rejected|{}", crate::mon::common::err_class(&e)),
+                format!("subtype({v}, {v}) = Err({e})"),
+            )),
+            Ok(Ok(())) => {}
+        }
+        match catch(|| subtype(&mut Gamma::new(), &twice, v, v2)) {
+            Err(pn) => r.findings.push((format!("subtype|panic|{}", stable_location(&pn.location)), format!("against a renamed copy: {}", pn.message))),
+            Ok(Err(_)) => r.counters.push("anomaly:subtype-rejects-renamed-copy".into()),
+            Ok(Ok(())) => r.counters.push("walk:subtype-renamed-copy-ok".into()),
+        }
+    }
+    if let Some(a) = actor {
+        match catch(|| subtype(&mut Gamma::new(), env, a, a)) {
+            Err(pn) => r.findings.push((format!("subtype|panic|{}", stable_location(&pn.location)), pn.message.clone())),
+            Ok(Err(e)) => r.findings.push((
+                format!("subtype|reflexive-rejected|{}", crate::mon::common::err_class(&e)),
+                format!("subtype(actor, actor) = Err({e})"),
+            )),
+            Ok(Ok(())) => {}
+        }
+    }
+    r.counters.push("walk:subtype".into());
+    // a generated value of every inhabited definition / method argument / init argument encodes
+    let mut rng = Rng::new(seed ^ 0xE2C0DE);
+    let vg = ValGen::new(&pm.env);
+    let mut targets: Vec<(RType, Type)> = Vec::new();
+    for (name, idx) in &pm.def_index {
+        targets.push((RType::Ref(*idx), TypeInner::Var(name.clone()).into()));
+    }
+    if let (Some((minit, mserv)), Some(a)) = (&pm.actor, actor) {
+        let (cinit, cserv) = actor_parts(a);
+        if let Some(ci) = cinit {
+            if ci.len() == minit.len() {
+                for (m, c) in minit.iter().zip(ci.iter()) {
+                    targets.push((m.clone(), c.clone()));
+                }
+            }
+        }
+        if let (Some(RType::Service(mms)), Ok(cms)) = (pm.env.unfold(mserv), env.as_service(&cserv)) {
+            if mms.len() == cms.len() {
+                for ((_, mt), (_, ct)) in mms.iter().zip(cms.iter()) {
+                    if let (Some(RType::Func { args, rets, .. }), Ok(cf)) = (pm.env.unfold(mt), env.as_func(ct)) {
+                        if args.len() == cf.args.len() && rets.len() == cf.rets.len() {
+                            for (m, c) in args.iter().zip(cf.args.iter()).chain(rets.iter().zip(cf.rets.iter())) {
+                                targets.push((m.clone(), c.clone()));
+                            }
+                        }
+                    }
+                }
+            }
+        }
+    }
+    for (mt, ct) in targets.iter().take(24) {
+        if !vg.inhabited(mt) {
+            r.counters.push("excluded:uninhabited-type".into());
+            continue;
+        }
+        let mut fuel = 25i64;
+        let Some(v) = vg.gen(&mut rng, mt, &mut fuel) else { continue };
+        let Ok(idl) = to_idl(&pm.env, mt, &v, Some(&pm.names)) else {
+            r.counters.push("excluded:value-not-expressible".into());
+            continue;
+        };
+        let args = IDLArgs { args: vec![idl] };
+        match catch(|| args.to_bytes_with_types(env, std::slice::from_ref(ct))) {
+            Err(pn) => r.findings.push((
+                format!("encode|panic|{}", stable_location(&pn.location)),
+                format!("encoding {args} at {ct} panicked: {}", pn.message),
+            )),
+            Ok(Err(e)) => r.findings.push((
+                format!("encode|error|{}", crate::mon::common::err_class(&e)),
+                format!("a value of the type does not encode: {args} at {ct}: {e}"),
+            )),
+            Ok(Ok(_)) => r.counters.push("walk:encoded".into()),
+        }
+    }
+    if !bindings {
+        return;
+    }
+    // binding generators return
+    let merged = IDLMergedProg::new(ast);
+    use candid_parser::bindings::{javascript, motoko, rust, typescript};
+    let hint = |p: &Prog| {
+        let f = features(p);
+        if f.contains("name:control-char") {
+            "names=control-char"
+        } else if f.contains("name:non-identifier") {
+            "names=quoted"
+        } else {
+            "names=identifiers"
+        }
+    };
+    match catch(|| javascript::compile(env, actor)) {
+        Err(pn) => r.findings.push((format!("binding|javascript|panic|{}|{}", stable_location(&pn.location), hint(p)), pn.message.clone())),
+        Ok(_) => r.counters.push("walk:javascript".into()),
+    }
+    match catch(|| typescript::compile(env, actor, &merged)) {
+        Err(pn) => r.findings.push((format!("binding|typescript|panic|{}|{}", stable_location(&pn.location), hint(p)), pn.message.clone())),
+        Ok(_) => r.counters.push("walk:typescript".into()),
+    }
+    if motoko_ok(p) {
+        match catch(|| motoko::compile(env, actor, &merged)) {
+            Err(pn) => r.findings.push((format!("binding|motoko|panic|{}|{}", stable_location(&pn.location), hint(p)), pn.message.clone())),
+            Ok(_) => r.counters.push("walk:motoko".into()),
+        }
+    } else {
+        r.counters.push("excluded:motoko-non-identifier-method".into());
+    }
+    match "".parse::<candid_parser::configs::Configs>() {
+        Ok(cfgs) => {
+            match catch(|| {
+                let tree = rust::Config::new(cfgs);
+                rust::compile(&tree, env, actor, &merged, rust::ExternalConfig::default())
+            }) {
+                Err(pn) => r.findings.push((format!("binding|rust|panic|{}|{}", stable_location(&pn.location), hint(p)), pn.message.clone())),
+                Ok(_) => r.counters.push("walk:rust".into()),
+            }
+        }
+        Err(_) => r.counters.push("excluded:rust-config".into()),
+    }
+}
+
+/// A long-lived thread with a bounded stack that runs the candid side of every case (spawning a
+/// thread with a 64 MiB stack per case costs more than parsing and checking the program).
+pub struct BoundedStack {
+    tx: std::sync::mpsc::Sender<Box<dyn FnOnce() -> Report + Send>>,
+    rx: std::sync::mpsc::Receiver<Result<Report, crate::ctx::PanicInfo>>,
+}
+
+impl BoundedStack {
+    pub fn new(stack: usize) -> BoundedStack {
+        let (tx, jobs) = std::sync::mpsc::channel::<Box<dyn FnOnce() -> Report + Send>>();
+        let (results, rx) = std::sync::mpsc::channel();
+        std::thread::Builder::new()
+            .stack_size(stack)
+            .spawn(move || {
+                for job in jobs {
+                    if results.send(catch(job)).is_err() {
+                        break;
+                    }
+                }
+            })
+            .expect("spawn");
+        BoundedStack { tx, rx }
+    }
+    fn run(&self, f: impl FnOnce() -> Report + Send + 'static) -> Result<Report, crate::ctx::PanicInfo> {
+        self.tx.send(Box::new(f)).expect("bounded-stack thread is gone");
+        self.rx.recv().expect("bounded-stack thread is gone")
+    }
+}
+
+/// The 64 MiB thread for everything, and a 2 MiB one for programs containing the shape on which the
+/// pinned checker recurses until its stack guard fires (the verdict is the same on any stack; burning
+/// 64 MiB takes seconds in release builds).
+pub struct Stacks {
+    big: BoundedStack,
+    small: BoundedStack,
+}
+impl Stacks {
+    fn pick(&self, runaway_shape: bool) -> &BoundedStack {
+        if runaway_shape {
+            &self.small
+        } else {
+            &self.big
+        }
+    }
+}
+
+/// Runs candid on `text` (on a bounded stack) and, when accepted, walks the environment.
+fn run_candid(stack: &BoundedStack, text: String, p: Prog, pm: Option<ProgModel>, seed: u64, bindings: bool) -> Report {
+    let res = stack.run(move || {
+        let mut r = Report::default();
+        match parse_check(&text) {
+            Err(e) => {
+                r.rejected = Some((
+                    e.stage().to_string(),
+                    e.class(),
+                    e.message().lines().next().unwrap_or("").chars().take(300).collect(),
+                ));
+            }
+            Ok((env, actor, ast)) => {
+                if let Some(pm) = &pm {
+                    r.model_diff = diff_model(pm, &env, &actor);
+                    if r.model_diff.is_none() {
+                        walk_accepted(&mut r, seed, &p, pm, &env, &actor, ast, bindings);
+                    }
+                }
+            }
+        }
+        r
+    });
+    match res {
+        Ok(r) => r,
+        Err(pn) => Report {
+            findings: vec![(format!("harness-thread|{}", stable_location(&pn.location)), pn.message)],
+            ..Report::default()
+        },
+    }
+}
+
+fn absorb(ctx: &mut Ctx, r: &Report, input: &serde_json::Value) {
+    for c in &r.counters {
+        ctx.count(c);
+    }
+    for (sig, what) in &r.findings {
+        ctx.violation(sig, what, input.clone());
+    }
+}
+
+fn expect_accept(ctx: &mut Ctx, rng: &mut Rng, p: &Prog, what: &str, stacks: &Stacks) {
+    let pm = to_model(p);
+    let pc = PrintCfg::random(rng);
+    let text = print_prog(p, &pc, rng);
+    for f in features(p) {
+        ctx.count(&format!("cover:{f}"));
+    }
+    let cycle = has_func_method_cycle(&p.defs);
+    let stack = stacks.pick(cycle);
+    let bindings = rng.chance(1, 2);
+    let r = run_candid(stack, text.clone(), p.clone(), Some(pm.clone()), rng.next(), bindings);
+    let input = json!({"kind": what, "source": clip(&text), "source_plain_layout": clip(&plain(p))});
+    match &r.rejected {
+        Some((stage, class, msg)) => {
+            let sig = if cycle && msg.contains("Recursion limit exceeded") {
+                "reject-wellformed|check|Recursion limit exceeded|func-service-method-cycle".to_string()
+            } else if stage == "panic" && msg.contains("attempt to add with overflow") && features(p).contains("label:numeric") {
+                format!("reject-wellformed|{class}|record-id-2^32-1")
+            } else {
+                format!("reject-wellformed|{class}")
+            };
+            ctx.violation(
+                &sig,
+                &format!("well-formed program ({what}) rejected at stage {stage}: {msg}"),
+                input.clone(),
+            );
+        }
+        None => {
+            ctx.count("agree:accepted");
+            if let Some(d) = &r.model_diff {
+                ctx.violation(
+                    &format!("accepted-env|differs-from-source|{}", d.split('|').next().unwrap_or("")),
+                    &format!("the checked environment is not the meaning of the source: {d}"),
+                    input.clone(),
+                );
+            }
+        }
+    }
+    absorb(ctx, &r, &input);
+    ctx.nontrivial(shape_hash(&pm) ^ crate::rng::hash_str(what));
+    ctx.sample(|| json!({"kind": what, "source": clip(&text)}));
+}
+
+fn expect_reject(ctx: &mut Ctx, rng: &mut Rng, m: &Mutant, stacks: &Stacks) {
+    let pc = PrintCfg::random(rng);
+    let text = print_prog(&m.prog, &pc, rng);
+    ctx.count(&format!("cover:fault:{}", m.kind.class()));
+    ctx.count(&format!("cover:position:{}", m.root_class));
+    let stack = stacks.pick(has_func_method_cycle(&m.prog.defs));
+    let r = run_candid(stack, text.clone(), m.prog.clone(), None, 0, false);
+    let input = json!({
+        "fault": m.kind.class(), "position": m.position, "violated_rule": m.reason,
+        "source": clip(&text), "source_plain_layout": clip(&plain(&m.prog)),
+    });
+    match &r.rejected {
+        Some((stage, _, _)) => {
+            ctx.count("agree:rejected");
+            ctx.count(&format!("rejected-at:{stage}"));
+            if stage == "panic" {
+                // a rejection, but by panic: that is C13's finding, not an acceptance
+                ctx.count("anomaly:rejected-by-panic");
+            }
+        }
+        None => ctx.violation(
+            &accept_sig("", m),
+            &format!(
+                "ill-formed program accepted: fault {} at {} ({})",
+                m.kind.class(),
+                m.position,
+                m.reason
+            ),
+            input.clone(),
+        ),
+    }
+    absorb(ctx, &r, &input);
+    ctx.nontrivial(crate::rng::hash_str(&format!("{}|{}|{}", m.kind.class(), m.position, m.prog.defs.len())));
+}
+
+/// `accept-illformed|<fault>|<position class>`. Numeric-looking duplicate argument names are dropped
+/// by the parser wherever they occur, so the position is not part of that signature.
+fn accept_sig(prefix: &str, m: &Mutant) -> String {
+    if m.kind == FaultKind::DupArgNameNumeric {
+        format!("{prefix}accept-illformed|{}", m.kind.class())
+    } else {
+        format!("{prefix}accept-illformed|{}|{}", m.kind.class(), m.root_class)
+    }
+}
+
+fn cfg_for(rng: &mut Rng) -> ProgCfg {
+    let mut cfg = if rng.chance(1, 3) { ProgCfg::default() } else { ProgCfg::random(rng) };
+    cfg.docs = if rng.chance(1, 4) { DocKind::Benign } else { DocKind::None };
+    cfg
+}
+
+// ------------------------------------------------------------------------------------------
+// init-args programs (candid:args metadata)
+
+struct InitReport {
+    main_rejected: bool,
+    rejected: Option<(String, String)>,
+    diff: Option<String>,
+}
+
+fn run_init(main_text: String, text: String, expect: Option<(REnv, Vec<RType>)>) -> Result<InitReport, crate::ctx::PanicInfo> {
+    on_thread(16 << 20, move || {
+        let mut rep = InitReport {
+            main_rejected: false,
+            rejected: None,
+            diff: None,
+        };
+        let main_env = match parse_check(&main_text) {
+            Ok((env, _, _)) => env,
+            Err(_) => {
+                rep.main_rejected = true;
+                return rep;
+            }
+        };
+        let r = catch(|| -> Result<(TypeEnv, Vec<Type>), (String, String)> {
+            let ast = text.parse::<IDLInitArgs>().map_err(|e| ("parse".to_string(), e.to_string()))?;
+            let mut te = TypeEnv::new();
+            let args = candid_parser::typing::check_init_args(&mut te, &main_env, &ast)
+                .map_err(|e| ("check".to_string(), e.to_string()))?;
+            Ok((te, args))
+        });
+        match r {
+            Err(pn) => rep.rejected = Some(("panic".into(), format!("{}: {}", pn.location, pn.message))),
+            Ok(Err(e)) => rep.rejected = Some(e),
+            Ok(Ok((te, args))) => {
+                if let Some((xenv, xargs)) = &expect {
+                    let mut c = FromCandid::new(&te);
+                    let mut got = Vec::new();
+                    for a in &args {
+                        match c.ty(a) {
+                            Ok(t) => got.push(t),
+                            Err(e) => {
+                                rep.diff = Some(format!("unconvertible|{e}"));
+                                return rep;
+                            }
+                        }
+                    }
+                    if got.len() != xargs.len() {
+                        rep.diff = Some(format!("arity|model {} vs candid {}", xargs.len(), got.len()));
+                        return rep;
+                    }
+                    let mut all = xenv.clone();
+                    let off = all.append(&c.out);
+                    for (k, (x, g)) in xargs.iter().zip(got.iter()).enumerate() {
+                        if !requal(&all, x, &g.shift_refs(off)) {
+                            rep.diff = Some(format!("arg-differs|#{k}"));
+                            return rep;
+                        }
+                    }
+                }
+            }
+        }
+        rep
+    })
+}
+
+fn init_args_case(ctx: &mut Ctx, rng: &mut Rng) {
+    let cfg = cfg_for(rng);
+    let main = Prog {
+        defs: gen_defs(rng, &cfg, &[]).0,
+        actor: None,
+    };
+    let main_text = print_prog(&main, &PrintCfg::plain().without_docs(), rng);
+    let mutate = rng.chance(1, 2);
+    if !mutate {
+        let ia = gen_init_args(rng, &cfg, Some(&main));
+        let main_pm = to_model(&main);
+        let expect = match init_args_model(&ia, Some(&main_pm)) {
+            Ok(x) => x,
+            Err(_) => {
+                ctx.count("excluded:init-args-model");
+                return;
+            }
+        };
+        let text = print_init_args(&ia, &PrintCfg::random(rng), rng);
+        let input = json!({"main": clip(&main_text), "init_args": clip(&text)});
+        match run_init(main_text.clone(), text.clone(), Some(expect)) {
+            Err(pn) => ctx.violation(&format!("harness-thread|{}", stable_location(&pn.location)), &pn.message, input),
+            Ok(rep) if rep.main_rejected => ctx.count("excluded:main-rejected"),
+            Ok(rep) => match (rep.rejected, rep.diff) {
+                (Some((stage, msg)), _) => {
+                    let cyc = has_func_method_cycle(&ia.defs) && msg.contains("Recursion limit exceeded");
+                    let class = if cyc {
+                        "check|Recursion limit exceeded|func-service-method-cycle".to_string()
+                    } else {
+                        format!("{stage}|{}", crate::mon::common::err_class(&msg))
+                    };
+                    ctx.violation(
+                        &format!("init-args|reject-wellformed|{class}"),
+                        &format!("well-formed init-args program rejected at {stage}: {}", msg.lines().next().unwrap_or("")),
+                        input,
+                    )
+                }
+                (None, Some(d)) => ctx.violation(
+                    &format!("init-args|differs-from-source|{}", d.split('|').next().unwrap_or("")),
+                    &format!("check_init_args returned types that differ from the source: {d}"),
+                    input,
+                ),
+                (None, None) => ctx.count("agree:init-args-accepted"),
+            },
+        }
+        ctx.nontrivial(crate::rng::hash_str(&format!("init-ok|{}", plain(&Prog { defs: ia.defs.clone(), actor: None }).len())));
+    } else {
+        // a self-contained init-args program, wrapped as a constructor so that the mutant catalogue applies
+        let ia = gen_init_args(rng, &cfg, None);
+        let wrapped = Prog {
+            defs: ia.defs.clone(),
+            actor: Some(Actor {
+                name: None,
+                init: Some(ia.args.clone()),
+                body: ActorBody::Service(vec![]),
+                docs: vec![],
+            }),
+        };
+        let Some(m) = gen_mutant(rng, &wrapped) else {
+            ctx.count("excluded:no-mutant");
+            return;
+        };
+        let still_wrapped = match &m.prog.actor {
+            Some(Actor {
+                init: Some(_),
+                body: ActorBody::Service(ms),
+                ..
+            }) => ms.is_empty(),
+            _ => false,
+        };
+        if !still_wrapped || m.root_class.starts_with("actor") {
+            ctx.count("excluded:fault-outside-init-args");
+            return;
+        }
+        let bad = InitArgsProg {
+            defs: m.prog.defs.clone(),
+            args: m.prog.actor.as_ref().unwrap().init.clone().unwrap(),
+        };
+        // names of the unrelated main program must stay apart
+        if bad.defs.iter().any(|d| main.def(&d.name).is_some()) {
+            ctx.count("excluded:name-clash-with-main");
+            return;
+        }
+        let text = print_init_args(&bad, &PrintCfg::random(rng), rng);
+        ctx.count(&format!("cover:init-fault:{}", m.kind.class()));
+        let input = json!({"main": clip(&main_text), "init_args": clip(&text), "fault": m.kind.class(), "position": m.position, "violated_rule": m.reason});
+        match run_init(main_text.clone(), text.clone(), None) {
+            Err(pn) => ctx.violation(&format!("harness-thread|{}", stable_location(&pn.location)), &pn.message, input),
+            Ok(rep) if rep.main_rejected => ctx.count("excluded:main-rejected"),
+            Ok(rep) => match rep.rejected {
+                Some(_) => ctx.count("agree:init-args-rejected"),
+                None => ctx.violation(
+                    &accept_sig("init-args|", &m),
+                    &format!("ill-formed init-args program accepted: {} at {} ({})", m.kind.class(), m.position, m.reason),
+                    input,
+                ),
+            },
+        }
+        ctx.nontrivial(crate::rng::hash_str(&format!("init-bad|{}|{}", m.kind.class(), m.position)));
+    }
+}
+
+pub fn run(ctx: &mut Ctx) {
+    let stacks = Stacks {
+        big: BoundedStack::new(STACK),
+        small: BoundedStack::new(2 << 20),
+    };
+    ctx.cases("wellformed", 0.35, |ctx, rng| {
+        let cfg = cfg_for(rng);
+        let p = gen_prog(rng, &cfg);
+        expect_accept(ctx, rng, &p, "generated", &stacks);
+    });
+    ctx.cases("lookalikes", 0.20, |ctx, rng| {
+        let cfg = cfg_for(rng);
+        let p = gen_prog(rng, &cfg);
+        match gen_lookalike(rng, &p) {
+            Some((q, k)) => {
+                ctx.count(&format!("cover:lookalike:{}", format!("{k:?}").split('(').next().unwrap_or("")));
+                expect_accept(ctx, rng, &q, &format!("lookalike:{k:?}"), &stacks);
+            }
+            None => ctx.count("excluded:no-lookalike"),
+        }
+    });
+    ctx.cases("mutants", 0.25, |ctx, rng| {
+        let cfg = cfg_for(rng);
+        let p = gen_prog(rng, &cfg);
+        match gen_mutant(rng, &p) {
+            Some(m) => expect_reject(ctx, rng, &m, &stacks),
+            None => ctx.count("excluded:no-mutant"),
+        }
+    });
+    ctx.cases("init-args", 0.15, init_args_case);
+    // well-formed shapes at the edge: id 2^32-1 in records; functions reaching themselves through a
+    // service method given by name
+    ctx.cases("boundary-shapes", 0.05, |ctx, rng| {
+        let mut cfg = cfg_for(rng);
+        cfg.max_id = true;
+        cfg.func_method_cycles = true;
+        cfg.max_defs = cfg.max_defs.max(2);
+        let mut p = gen_prog(rng, &cfg);
+        match rng.below(3) {
+            0 => {
+                let name = "Edge".to_string();
+                if p.def(&name).is_none() {
+                    p.defs.push(Def {
+                        name,
+                        ty: Ty::Record(vec![
+                            Field::new(Label::Id(u32::MAX), Ty::Prim(Prim::Nat)),
+                            Field::new(Label::Id(0), Ty::Prim(Prim::Text)),
+                        ]),
+                        docs: vec![],
+                    });
+                }
+            }
+            1 => {
+                let name = "Callback".to_string();
+                if p.def(&name).is_none() {
+                    p.defs.push(Def {
+                        name: name.clone(),
+                        ty: Ty::Func(Func {
+                            args: vec![ArgTy::plain(Ty::Service(vec![Method {
+                                name: "subscribe".into(),
+                                ty: MethTy::Var(name),
+                                docs: vec![],
+                            }]))],
+                            rets: vec![],
+                            modes: vec![],
+                        }),
+                        docs: vec![],
+                    });
+                }
+            }
+            _ => {}
+        }
+        if well_formed(&p).is_ok() {
+            expect_accept(ctx, rng, &p, "boundary", &stacks);
+        }
+    });
+}
